@@ -1,0 +1,16 @@
+//go:build verif
+
+package cas
+
+// Contracts for gocv (see /verif/DESIGN.md). Comment-only file.
+
+//@ package cas
+//@ import io "io"
+//@ import sync "sync"
+//@ import ocispec "github.com/opencontainers/image-spec/specs-go/v1"
+//@ import errdef "oras.land/oras-go/v2/errdef"
+//@
+//@ func (*Memory).Push
+//@   call LoadOrStore requires [C05:verified-before-store] matched(content, expected)
+//@   ensures [C05:nil-means-verified] result == nil ==> matched(content, expected)
+//@   ensures [C05,C06:exists-refused-unchanged] old(syncHas(lockOf(m, "content"), box(K(expected)))) ==> errors.Is(result, errdef.ErrAlreadyExists) && syncVersion(lockOf(m, "content")) == old(syncVersion(lockOf(m, "content")))
